@@ -157,7 +157,7 @@ impl Property for C02 {
     }
 
     fn plan(&self, tier: Tier) -> Vec<Stage<Case>> {
-        vec![Stage::random("programs", tier.pick(200_000, 4_000_000), || {
+        vec![Stage::random("programs", tier.pick(800_000, 25_000_000), || {
             (program(), proptest::collection::vec(0u8..8, 0..6)).prop_map(|(program, request)| Case { program, request })
         })]
     }
@@ -167,7 +167,7 @@ impl Property for C02 {
     }
 
     fn floors(&self, tier: Tier) -> Vec<Floor> {
-        let min = tier.pick(50u64, 1000);
+        let min = tier.pick(200u64, 5000);
         let mut f = Vec::new();
         for op in ["add", "sub", "mul", "div"] {
             for form in ["ref.ref", "own.ref", "ref.own", "own.own"] {
@@ -179,7 +179,7 @@ impl Property for C02 {
         for u in ["neg:ref:Dual2", "neg:own:Dual2", "abs:neg:Dual2", "abs:pos:Dual2", "exp:Dual2", "log:Dual2", "norm_cdf:Dual2", "inv_norm_cdf:Dual2", "pow:ref:Dual2", "pow:own:Dual2"] {
             f.push(Floor { label: u, min });
         }
-        f.push(Floor { label: "cross-terms-after-3-ops", min: tier.pick(20_000, 400_000) });
+        f.push(Floor { label: "cross-terms-after-3-ops", min: tier.pick(60_000, 2_000_000) });
         f.push(Floor { label: "request:absent-name", min: tier.pick(10_000, 200_000) });
         f.push(Floor { label: "pow:zero-base", min: tier.pick(500, 10_000) });
         f
